@@ -45,6 +45,10 @@ def modified_cholesky(mat: np.ndarray, max_error: float = 1e-6) -> np.ndarray:
         chol_vecs[nchol + 1] = (mat[nu] - R) / (delta_max + 1e-10) ** 0.5
         nchol += 1
 
+    # vectors 0..nchol have been computed; the last one is negligible only if the loop
+    # stopped on the error threshold, not if it stopped on the size limit
+    if abs(delta_max) > max_error:
+        nchol += 1
     return chol_vecs[:nchol]
 
 
